@@ -12,7 +12,8 @@
 (*   store[s] [n, u, e, txt, saved] : the source's schema, abstracted to   *)
 (*            n base sets, u inherited derived terms, e terms the user     *)
 (*            added to this result, a text revision; saved = no change is  *)
-(*            waiting to be announced                                      *)
+(*            waiting to be announced; locked = the environment refuses    *)
+(*            to write new data into it                                    *)
 (* The formal content (what the core hash covers) is <<n, u, e>>.          *)
 (* Grid cells are not modelled (one per pictogram by construction); the    *)
 (* harness checks them on the implementation.                              *)
@@ -90,7 +91,7 @@ Erase(S, p) ==
 ConnectNew(S, p, s, n0) ==
   IF p \notin Picts(S) THEN S
   ELSE LET S0 == Sync(S, p)          \* a previously attached source is saved and closed
-           S1 == [S0 EXCEPT !.store = (s :> [n |-> n0, u |-> 0, e |-> 0, txt |-> 0, saved |-> TRUE]) @@ S0.store,
+           S1 == [S0 EXCEPT !.store = (s :> [n |-> n0, u |-> 0, e |-> 0, txt |-> 0, saved |-> TRUE, locked |-> FALSE]) @@ S0.store,
                             !.hand[p] = [name |-> s, hash |-> S0.hand[p].hash, linked |-> TRUE]]
            new == Core(S1, s)
            S2 == [S1 EXCEPT !.hand[p].hash = new]
@@ -108,6 +109,8 @@ Edit(S, p, kind) ==
     [] kind = "removeBase" -> [S EXCEPT !.store[s].n = @ - 1, !.store[s].saved = FALSE]
     [] kind = "text" -> [S EXCEPT !.store[s].txt = @ + 1, !.store[s].saved = FALSE]
     [] kind = "userTerm" -> [S EXCEPT !.store[s].e = 1, !.store[s].saved = FALSE]
+\* the environment makes the source of p read-only
+Lock(S, p) == IF p \in Picts(S) /\ HasData(S, p) THEN [S EXCEPT !.store[S.hand[p].name].locked = TRUE] ELSE S
 \* the source manager announces the pending change of p's source
 Save(S, p) == IF p \in Picts(S) THEN Sync(S, p) ELSE S
 
@@ -145,7 +148,7 @@ Execute(S, p, newSrc, autoDiscard) ==
         S2 == IF HasData(S1, p) THEN Sync(S1, p) ELSE S1                    \* AggregateVersions saves the old result first
         carried == IF HasData(S2, p) THEN DataOf(S2, p).e ELSE 0            \* the user's own additions are carried over
         content == [n |-> d1.n + d2.n - Pairs(S2.oper[p].table), u |-> d1.u + d1.e + d2.u + d2.e, e |-> carried,
-                    txt |-> 0, saved |-> TRUE]
+                    txt |-> 0, saved |-> TRUE, locked |-> FALSE]
         s == IF HasData(S2, p) THEN S2.hand[p].name ELSE newSrc[p]
         oldHash == S2.hand[p].hash
         S3 == [S2 EXCEPT !.store = (s :> content) @@ [x \in DOMAIN S2.store \ {s} |-> S2.store[x]],
@@ -157,7 +160,9 @@ Execute(S, p, newSrc, autoDiscard) ==
         RECURSIVE Upd(_, _)
         Upd(T, i) == IF i > Len(cs) THEN T
                      ELSE LET T1 == CheckOp(T, cs[i]) IN Upd(IF changed THEN [T1 EXCEPT !.oper[cs[i]].outdated = TRUE] ELSE T1, i + 1)
-    IN [ok |-> TRUE, S |-> Upd(S3, 1)]
+    IN IF HasData(S2, p) /\ DataOf(S2, p).locked
+       THEN [ok |-> FALSE, S |-> [S2 EXCEPT !.oper[p].broken = TRUE]]     \* the new result cannot be written: broken, still outdated
+       ELSE [ok |-> TRUE, S |-> Upd(S3, 1)]
 
 RECURSIVE ExecAll(_, _, _, _)
 ExecAll(S, ps, i, newSrc) == IF i > Len(ps) THEN S ELSE ExecAll(Execute(S, ps[i], newSrc, TRUE).S, ps, i + 1, newSrc)
